@@ -9,7 +9,7 @@ Public API (used by the property builders C01/C02/C03/C04/C06/C09/C10):
     make_debiaser(config, years_LS=None)     a real ibicus debiaser instance for the configuration
     run_real(config, obs, H, F, years=None)  -> (kind, value, draws)   kind in {"ok", "error"}
     driver_line(config, obs, H, F, u=None, years=None)  -> the DrvDebiasers op line for the same numbers
-    parse_driver(line)            -> ("ok", [Fraction|None], [tie idx], [ill-conditioned idx]) | ("undef",) | ("error", cls) | ("bad",)
+    parse_driver(line)            -> ("ok", [Fraction|None], [tie idx], [ill-conditioned idx]) | ("undef",) | ("undef-soft",) | ("error", cls) | ("bad",)
     gen_case(rng, config, stream) -> dict(obs, H, F, years)  dyadic inputs (k/64) suited to the configuration
     correspondence(rng, n_cases, tier, res, families=None) -> list of mismatch dicts
 
@@ -69,6 +69,11 @@ def _configs():
                 for yrs in (False, True):
                     add(f"QDM-{tp}-{em}-{'censor' if cens else 'nocensor'}{'-years' if yrs else ''}", "QDM",
                         tp=tp, em=em, censor=cens, years=yrs, data="pos" if tp == "relative" else "tas", param=True)
+    for tp in ("absolute", "relative"):
+        add(f"QDM-{tp}-kernel_density-nocensor", "QDM", tp=tp, em="kernel_density", censor=False, years=False,
+            data="pos" if tp == "relative" else "tas", param=True, hist=True)
+    add("QDM-absolute-kernel_density-censor", "QDM", tp="absolute", em="kernel_density", censor=True, years=False,
+        data="tas", param=True, hist=True)
     add("SDM-absolute", "SDMabs", data="tas", param=True, tiefreeF=True)
     add("SDM-relative", "SDMrel", data="pr", tiefreeF=True)
     for d in ("additive", "multiplicative", "no_shift"):
@@ -80,6 +85,9 @@ def _configs():
             add(f"CDFt-{d}-{em}-{im}-nossr-years", "CDFt", shift=d, em=em, im=im, ssr=False, years=True,
                 data="pos" if d == "multiplicative" else "tas")
             add(f"CDFt-{d}-{em}-{im}-ssr-years", "CDFt", shift=d, em=em, im=im, ssr=True, years=True, data="pr")
+        for im in ("linear", "inverted_cdf", "hazen"):
+            add(f"CDFt-{d}-kernel_density-{im}-nossr", "CDFt", shift=d, em="kernel_density", im=im, ssr=False, years=False,
+                data="pos" if d == "multiplicative" else "tas", hist=True)
     return cf
 
 
@@ -214,6 +222,9 @@ def driver_line(config, obs, H, F, u=None, years=None, t=None, years_LS=None, ce
         return f"ecdfm {t} {o} {h} {f}"
     if fam == "QDM":
         c = C.rat(float(censor_thr)) if config["censor"] else "none"
+        if config.get("hist"):
+            e, cnt = hist_oracle(F)
+            return f"qdmhist {config['tp']} {t} {c} {e} {cnt} {o} {h} {f}"
         if config["years"]:
             L, S = norm_odd(years_LS[0]), norm_odd(years_LS[1])
             return f"qdmyears {config['tp']} {config['em']} {t} {c} {L} {S} {C.ilist(years)} {o} {h} {f}"
@@ -224,6 +235,18 @@ def driver_line(config, obs, H, F, u=None, years=None, t=None, years_LS=None, ce
         return f"sdmrel {C.rat(float(pr_thr))} {t} {o} {h} {f}"
     if fam == "CDFt":
         ul = C.rlist(u) if u is not None and len(u) else "-"
+        if config.get("hist"):
+            # the shifted samples exactly as `_apply_CDFt_mapping` computes them (floats), then their histograms
+            oa, ha, fa = (np.array(x, dtype=float) for x in (obs, H, F))
+            if config["shift"] == "additive":
+                sh = np.mean(oa) - np.mean(ha)
+                ha, fa = ha + sh, fa + sh
+            elif config["shift"] == "multiplicative":
+                sh = np.mean(oa) / np.mean(ha)
+                ha, fa = ha * sh, fa * sh
+            eF, cF = hist_oracle(fa)
+            eH, cH = hist_oracle(ha)
+            return f"cdfthist {config['shift']} {config['im']} {eF} {cF} {eH} {cH} {o} {h} {f}"
         if config["years"]:
             L, S = norm_odd(years_LS[0]), norm_odd(years_LS[1])
             if config["ssr"]:
@@ -233,9 +256,18 @@ def driver_line(config, obs, H, F, u=None, years=None, t=None, years_LS=None, ce
     raise ValueError(fam)
 
 
+def hist_oracle(x):
+    """`np.histogram(x, bins="auto")` — the bin edges / counts that `ecdf(method="kernel_density")` uses; an oracle
+    argument of the model (Model.Stats.ecdfHist1)"""
+    counts, edges = np.histogram(np.array(x, dtype=float), bins="auto")
+    return C.rlist(edges.tolist()), C.ilist(counts.tolist())
+
+
 def parse_driver(line):
     if line == "undef":
         return ("undef",)
+    if line == "undef-soft":
+        return ("undef-soft",)
     if line.startswith("error "):
         return ("error", line[6:])
     if " ties=" not in line:
@@ -382,6 +414,12 @@ def gen_case(rng, config, stream="main", tier="quick"):
             obs = _series(rng, nO, data, cO, width, ties)
             H = _series(rng, nH, data, cO + shiftH, wH, ties)
             F = _series(rng, nF, data, cO + shiftF, wF, tiesF)
+        if stream == "ties" and not config.get("tiefreeF") and rng.random() < 0.4:
+            # shared values: future / observed values that coincide with historical ones (knots, min, max), so that
+            # comparisons at equality (`<` vs `<=`) are exercised on exact inputs
+            for _ in range(rng.randint(1, 3)):
+                F[rng.randrange(len(F))] = rng.choice([min(H), max(H), rng.choice(H), rng.choice(obs)])
+                obs[rng.randrange(len(obs))] = rng.choice([rng.choice(H), min(H)])
         obs, H, F = ([k / 64.0 for k in s] for s in (obs, H, F))
         if stream == "degenerate":
             # guards: a constant sample (fitted scale 0) or a historical mean of exactly 0
@@ -412,6 +450,8 @@ def gen_case(rng, config, stream="main", tier="quick"):
         if config.get("years"):
             case["years"] = gen_years(rng, nF)
             case["years_LS"] = rng.choice(YEAR_LS)
+            if rng.random() < 0.03:  # time information of the wrong length: ValueError on both sides
+                case["years"] = case["years"][:-1]
         return case
     raise RuntimeError(f"no admissible case for {config['name']}")
 
@@ -433,12 +473,16 @@ def compare(config, case, kind, value, model_line, stats):
         if parsed[0] == "error" and parsed[1] == value:
             st["errors_agree"] += 1
             return None
-        if parsed[0] == "undef":
+        if parsed[0] in ("undef", "undef-soft"):
             st["undef"] += 1
             return None
         return {**info, "impl": f"raises {value}", "model": model_line[:200], "why": "exception class"}
     if parsed[0] == "error":
         return {**info, "impl": str(value.tolist())[:200], "model": model_line[:200], "why": "model raises, code does not"}
+    if parsed[0] == "undef-soft":
+        # an exactly computed denominator is zero; the float code may see a tiny non-zero number instead: not compared
+        st["undef_soft"] += 1
+        return None
     if parsed[0] == "undef":
         # the model's guard fails (division by zero): the float code must not have produced an all-finite result
         st["undef"] += 1
